@@ -55,6 +55,7 @@ fn main() {
         "C05" => drive::<vcore::c05::C05>(&args),
         "C06" => drive::<vcore::c06::C06>(&args),
         "C09" => drive::<vcore::c09::C09>(&args),
+        "C13" => drive::<vcore::c13::C13>(&args),
         "C15" => drive::<vcore::c15::C15>(&args),
         _ => {
             eprintln!("unknown property id {id}");
